@@ -8,17 +8,19 @@ require (
 	github.com/ThreeDotsLabs/watermill v0.0.0
 	github.com/anishathalye/porcupine v1.3.0
 	github.com/gogo/protobuf v1.3.2
+	github.com/hashicorp/go-multierror v1.1.1
+	github.com/pkg/errors v0.9.1
 	google.golang.org/protobuf v1.34.2
 	pgregory.net/rapid v1.3.0
 )
 
 require (
+	github.com/cenkalti/backoff/v3 v3.2.2 // indirect
 	github.com/google/uuid v1.6.0 // indirect
 	github.com/hashicorp/errwrap v1.1.0 // indirect
-	github.com/hashicorp/go-multierror v1.1.1 // indirect
 	github.com/lithammer/shortuuid/v3 v3.0.7 // indirect
 	github.com/oklog/ulid v1.3.1 // indirect
-	github.com/pkg/errors v0.9.1 // indirect
+	github.com/sony/gobreaker v1.0.0 // indirect
 )
 
 replace github.com/ThreeDotsLabs/watermill => /repo
